@@ -667,6 +667,23 @@ def check_c02(res, ctx):
                 for combo in itertools.product(alpha, repeat=ln):
                     for enc in (1, 2, 3):
                         lines.append("full va %d %d %d %s" % (enc, tid, ln, " ".join(combo)))
+    # long arrays (beyond any internal staging size one might introduce: 16384, 65536 elements),
+    # all values distinct / long runs, every fixed-size width; compared through the digests
+    longl = []
+    for tid in (2, 3, 13, 1, 254 if 254 in ref.ALL_TIDS else 4):
+        sz = ref.SIZES[tid]
+        for n in ([16385, 40000] if ctx.tier == "quick" else [16384, 16385, 32769, 65537, 100001]):
+            for enc in (1, 2):
+                if tid == 1:
+                    els = ["%02x" % ((i * 7 // 3) % 2) for i in range(n)]
+                else:
+                    els = [((i * 2654435761) % (1 << (8 * min(sz, 8)))).to_bytes(min(sz, 8), "little").hex() + "00" * (sz - min(sz, 8))
+                           for i in range(n)]
+                longl.append("va %d %d %d %s" % (enc, tid, n, " ".join(els)))
+    compare(res, ctx, longl, "c02 long arrays",
+            oracle=lambda l, h: None if re.search(r" live=0$", h) and " rd=0" in h else "long array did not round-trip: " + h[:200],
+            rule="arrays of 16385..100001 distinct fixed-size values (1/4/8/16-byte types), plain and run-length: create, decode, write, read, decode; digests of model and implementation compared",
+            nontrivial=lambda l: True)
     compare(res, ctx, lines, "c02 value-array encodings", project=strip_bytes, oracle=oracle_c02,
             rule="arrays of all 12 types with steered run structure (all-equal, independent, alternating, runs 1..600), lengths 0/1/7/8/9/255..257/511..513/600, every encoding incl. unknown ids; thorough adds all arrays of length<=7 over 3-symbol alphabets",
             nontrivial=lambda l: int(l.split()[4]) > 1)
@@ -771,6 +788,13 @@ def table_lines(ctx, n, kind="rt", prefix="", small=False, incons=0.08):
             o = ref.Obj(tid, [big, b"x", big] if ln < 3000000 else [big])
             t = ref.Table([], [[(b"Name", ref.Obj(10, [b"c0"]), None)]], [[((r.choice([0, 1, 2]), o), [])]])
             out.append((t, "cap=100000000 %s%s %s" % (prefix, kind, t.script())))
+        # a long column (more rows than any staging buffer): distinct values, plain and run-length
+        for tid, n in ((2, 20000), (13, 17000)) if ctx.tier == "quick" else ((2, 70000), (3, 40000), (13, 33000)):
+            sz = ref.SIZES[tid]
+            o = ref.Obj(tid, [((i * 2654435761) % (1 << 32)).to_bytes(4, "little") + b"\0" * (sz - 4) for i in range(n)])
+            t = ref.Table([], [[(b"Name", ref.Obj(10, [b"c0"]), None)], [(b"Name", ref.Obj(10, [b"c1"]), None)]],
+                          [[((1, o), []), ((2, o), [])]])
+            out.append((t, "%s%s %s" % (prefix, kind, t.script())))
     return out
 
 
@@ -918,6 +942,9 @@ def check_c04(res, ctx, be=False):
 def check_c17(res, ctx):
     check_c01(res, ctx, be=True, label="c17(be)")
     check_c04(res, ctx, be=True)
+    # "exactly once in each direction" also after a failed write: the objects are converted on the
+    # way out and must still be in host order afterwards (a second write gives the same bytes)
+    write_fault_stage(res, ctx, 12 if ctx.tier == "quick" else 120, 1200 if ctx.tier == "quick" else 8000, be=True)
     # the BE stream is the field-wise mirror of the LE one: same field map, numeric fields reversed
     r = ctx.rng
     mism = 0
@@ -1367,15 +1394,17 @@ def status_class(x):
 
 
 def check_c13(res, ctx):
+    write_fault_stage(res, ctx, 40 if ctx.tier == "quick" else 300, 1500 if ctx.tier == "quick" else 20000)
+
+
+def write_fault_stage(res, ctx, ntab, lim, be=False):
     r = ctx.rng
     lines = []
     info = {}
-    ntab = 40 if ctx.tier == "quick" else 300
-    lim = 1500 if ctx.tier == "quick" else 20000
     made = 0
     while made < ntab:
         t = gen.rtable(r, consistent=True, small=True)
-        full = bytes(t.canon().encode().b)
+        full = bytes(t.canon().encode(be).b)
         if len(full) > lim:
             continue
         made += 1
@@ -1387,11 +1416,25 @@ def check_c13(res, ctx):
 
     def oracle(l, h):
         k, full = info[l]
+        h0 = h
+        again = None
+        if " again:" in h:
+            a, rest = h.split(" again:", 1)
+            lv = re.search(r" live=-?\d+$", rest)
+            h = a + (lv.group(0) if lv else "")
+            again = rest[:lv.start()] if lv else rest
         m = re.match(r"build=0 fh=(-?\d+) tm=(-?\d+) ts=(\S*) end=(-?\d+) bytes=(\S+) live=(-?\d+)$", h)
         if not m:
             m = re.match(r"build=0 fh=(-?\d+) tm=(-?\d+) ts=() ?end=(-?\d+) bytes=(\S+) live=(-?\d+)$", h)
             if not m:
-                return "unexpected: " + h[:200]
+                return "unexpected: " + h0[:200]
+        if again is not None:
+            ma = re.match(r"fh=0 tm=0 ts=([0,]*) ?end=0 bytes=(\S+)$", again)
+            if not ma:
+                return "after a failed write the same objects cannot be written to a healthy stream: " + again[:200]
+            gb = bytes.fromhex(ma.group(2)) if ma.group(2) != "-" else b""
+            if gb != full:
+                return "after a failed write the same objects serialise differently on a healthy stream (the failed call changed them)"
         sts = [int(m.group(1)), int(m.group(2))] + [int(x) for x in m.group(3).split(",") if x] + [int(m.group(4))]
         if all(x == 0 for x in sts):
             return "the stream refused bytes from offset %d of %d but every writer call reported success" % (k, len(full))
@@ -1404,10 +1447,11 @@ def check_c13(res, ctx):
         if m.group(6) != "0":
             return "leak after a failed write: live=" + m.group(6)
         return None
-    compare(res, ctx, lines, "c13 write faults at every offset", oracle=oracle, project=status_class,
-            rule="every byte offset 0..len-1 at which the stream starts refusing, for generated tables up to the size bound; all writer entry points are called (header, table metadata, slices, end marker), also after the failure",
+    compare(res, ctx, lines, "c13 write faults at every offset" + (" (big-endian build)" if be else ""), oracle=oracle, project=status_class,
+            variant="be" if be else "asan", margs=("--be",) if be else (),
+            rule="every byte offset 0..len-1 at which the stream starts refusing, for generated tables up to the size bound; all writer entry points are called (header, table metadata, slices, end marker), also after the failure; then the same objects are written again to a healthy stream and must give the full encoding",
             nontrivial=lambda l: True)
-    res.cov["fault_offsets"] = len(lines)
+    res.cov["fault_offsets" + ("_be" if be else "")] = len(lines)
 
 
 # ----------------------------------------------------------------------------- C05 hostile input
